@@ -167,10 +167,11 @@ pub fn record(runs: usize, path: &str) {
         // written in front of the part, in the byte before it
         let mut script: Vec<J> = vec![];
         if run % 4 == 3 {
-            let first = Final::two_two_n(rng.range(3, 5)).unwrap();          // 8 or 16 bits
-            let lead = if rng.bool() { first.clone() } else { Final::product(first.clone(), Final::two_two_n(3).unwrap()) };
+            // (on odd scripted runs the leading part is narrower than a byte: a value that shares its last byte with what follows it)
+            let first = if run % 8 == 7 { Final::two_two_n(rng.range(0, 3)).unwrap() } else { Final::two_two_n(rng.range(3, 5)).unwrap() };   // 1, 2, 4 or 8, 16 bits
+            let lead: Arc<Final> = if rng.bool() { first.clone() } else { Final::product(first.clone(), Final::two_two_n(if run % 8 == 7 { 2 } else { 3 }).unwrap()) };
             let part = if rng.bool() { Final::two_two_n(rng.range(0, 5)).unwrap() } else { rand_ty(&mut rng, 2) };
-            let t = Final::product(lead, part.clone());
+            let t = Final::product(lead.clone(), part.clone());
             let v = rand_tree(&mut rng, &t);
             script.push(json!(["build", ty_j(&t), v]));
             script.push(json!(["snd", 1]));
@@ -184,6 +185,11 @@ pub fn record(runs: usize, path: &str) {
             script.push(json!(["prune", 3, ty_j(&rand_smaller(&mut rng, &t3))]));
             let whole = Final::sum(t.clone(), Final::unit());
             script.push(json!(["prune", 4, ty_j(&rand_smaller(&mut rng, &whole))]));
+            // the two parts once more, taken out of the product and built from scratch: equal values of different
+            // provenance (own buffer / shared buffer with other bits around them) for the equality, order and hash relations
+            script.push(json!(["fst", 1]));
+            script.push(json!(["build", ty_j(&lead), v[1].clone()]));
+            script.push(json!(["build", ty_j(&part), v[2].clone()]));
             script.reverse();
         }
         for _ in 0..(if script.is_empty() { nops } else { script.len() }) {
